@@ -30,7 +30,7 @@ KIND = os.environ.get('FUZZ_CONTAINER', 'linqset')
 OUT = os.environ.get('FUZZ_OUT', '.')
 
 NAMES = ['append', 'add', 'insert', 'remove', 'discard', 'pop', 'delitem', 'delslice', 'setitem', 'setslice', 'extend',
-         'update', 'reverse', 'clear', 'copy', 'ior', 'iand', 'isub', 'ixor', 'wedge' if KIND == 'linqset' else 'sort']
+         'update', 'reverse', 'clear', 'copy', 'ior', 'iand', 'isub', 'ixor', 'wedge' if KIND == 'linqset' else 'sort', 'selfop']
 
 
 def decode(data: bytes):
@@ -57,6 +57,8 @@ def decode(data: bytes):
             ops.append((name, (opt(), opt(), [None, 1, 2, -1, -2, 3][fdp.ConsumeIntInRange(0, 5)]), vals()))
         elif name == 'wedge':
             ops.append((name, v(), v(), -1 if fdp.ConsumeBool() else 1))
+        elif name == 'selfop':
+            ops.append((name, ['ior', 'iand', 'isub', 'ixor', 'update', 'extend'][fdp.ConsumeIntInRange(0, 5)]))
         elif name == 'sort':
             ops.append((name, fdp.ConsumeBool(), fdp.ConsumeIntInRange(0, 2)))
         else:
